@@ -281,7 +281,7 @@ fn task_index() -> usize {
 
 /// Solo results: every thread's list executed alone on an identical store; and the files after
 /// running all threads one after the other.
-fn solo(s: &Scenario) -> (Vec<Vec<String>>, BTreeMap<String, Vec<u8>>) {
+fn solo(s: &Scenario) -> (Vec<Vec<String>>, BTreeMap<String, Vec<u8>>, String) {
     let mut results = Vec::new();
     for ops in s.threads.iter() {
         let world = build_store(s);
@@ -294,7 +294,9 @@ fn solo(s: &Scenario) -> (Vec<Vec<String>>, BTreeMap<String, Vec<u8>>) {
             let _ = run_rop(&world.store, op);
         }
     }
-    (results, world.fs.snapshot())
+    // after the last reader has finished: one more serialisation of the store (nothing may linger)
+    let post = run_rop(&world.store, &ROp::StoreJson);
+    (results, world.fs.snapshot(), post)
 }
 
 fn classify(op: &ROp, solo: &str, got: &str) -> String {
@@ -310,7 +312,7 @@ fn classify(op: &ROp, solo: &str, got: &str) -> String {
 }
 
 /// The body run under the scheduler. Panics (with a classified message) on any divergence.
-fn scenario_body(s: &Scenario, solo_results: &Vec<Vec<String>>, solo_files: &BTreeMap<String, Vec<u8>>) {
+fn scenario_body(s: &Scenario, solo_results: &Vec<Vec<String>>, solo_files: &BTreeMap<String, Vec<u8>>, solo_post: &str) {
     let world = build_store(s);
     SITE_LOG.with(|l| l.borrow_mut().clear());
     let hook: Rc<dyn Fn(&'static str)> = Rc::new(|site: &'static str| {
@@ -368,6 +370,12 @@ fn scenario_body(s: &Scenario, solo_results: &Vec<Vec<String>>, solo_files: &BTr
         });
     }
     EXECUTIONS.with(|e| *e.borrow_mut() += 1);
+    // quiescence: all readers are done, so the store must answer exactly as it does after the same
+    // calls made one after the other (a mode left flipped, a flag left set would show here)
+    let post = run_rop(&store, &ROp::StoreJson);
+    if post != solo_post {
+        panic!("C20DIVERGENCE|after_quiescence|store serialisation after all readers finished: solo {:?} concurrent {:?}", short(solo_post), short(&post));
+    }
     let got = results.lock().unwrap().clone();
     for (t, ops) in s.threads.iter().enumerate() {
         for (i, op) in ops.iter().enumerate() {
@@ -442,7 +450,7 @@ fn run_scenario(seed: u64, index: u64, schedules: usize, tally: &mut Tally) {
             *tally.ops.entry(op.kind().to_string()).or_insert(0) += 1;
         }
     }
-    let (solo_results, solo_files) = match catch(|| solo(&s)) {
+    let (solo_results, solo_files, solo_post) = match catch(|| solo(&s)) {
         Ok(x) => x,
         Err(_p) => {
             // the single-threaded run itself failed: not a scheduling matter. The property that owns
@@ -453,6 +461,7 @@ fn run_scenario(seed: u64, index: u64, schedules: usize, tally: &mut Tally) {
     };
     let solo_results = Arc::new(solo_results);
     let solo_files = Arc::new(solo_files);
+    let solo_post = Arc::new(solo_post);
     tally.scenarios += 1;
     let dir = schedule_dir();
     for (name, pct_depth) in [("random", 0usize), ("pct2", 2), ("pct3", 3)] {
@@ -468,15 +477,16 @@ fn run_scenario(seed: u64, index: u64, schedules: usize, tally: &mut Tally) {
         let sc = s.clone();
         let sr = solo_results.clone();
         let sf = solo_files.clone();
+        let sp = solo_post.clone();
         let sched_seed = rng::run_seed(seed, name, index);
         let r = catch(move || {
             let _r = SCHED_LOCK.read().unwrap_or_else(|e| e.into_inner());
             if pct_depth == 0 {
                 let runner = shuttle::Runner::new(shuttle::scheduler::RandomScheduler::new_from_seed(sched_seed, n), cfg);
-                runner.run(move || scenario_body(&sc, &sr, &sf));
+                runner.run(move || scenario_body(&sc, &sr, &sf, &sp));
             } else {
                 let runner = shuttle::Runner::new(shuttle::scheduler::PctScheduler::new_from_seed(sched_seed, pct_depth, n), cfg);
-                runner.run(move || scenario_body(&sc, &sr, &sf));
+                runner.run(move || scenario_body(&sc, &sr, &sf, &sp));
             }
         });
         if let Err(p) = r {
@@ -491,6 +501,7 @@ fn run_scenario(seed: u64, index: u64, schedules: usize, tally: &mut Tally) {
                 let sc = s.clone();
                 let sr = solo_results.clone();
                 let sf = solo_files.clone();
+                let sp = solo_post.clone();
                 let mut cfg = shuttle::Config::new();
                 cfg.stack_size = 1 << 20;
                 cfg.failure_persistence = shuttle::FailurePersistence::File(Some(std::path::PathBuf::from(&dir)));
@@ -500,9 +511,9 @@ fn run_scenario(seed: u64, index: u64, schedules: usize, tally: &mut Tally) {
                 let h = std::thread::Builder::new().stack_size(64 << 20).spawn(move || {
                     let _ = catch(move || {
                         if pct_depth == 0 {
-                            shuttle::Runner::new(shuttle::scheduler::RandomScheduler::new_from_seed(sched_seed, n), cfg).run(move || scenario_body(&sc, &sr, &sf));
+                            shuttle::Runner::new(shuttle::scheduler::RandomScheduler::new_from_seed(sched_seed, n), cfg).run(move || scenario_body(&sc, &sr, &sf, &sp));
                         } else {
-                            shuttle::Runner::new(shuttle::scheduler::PctScheduler::new_from_seed(sched_seed, pct_depth, n), cfg).run(move || scenario_body(&sc, &sr, &sf));
+                            shuttle::Runner::new(shuttle::scheduler::PctScheduler::new_from_seed(sched_seed, pct_depth, n), cfg).run(move || scenario_body(&sc, &sr, &sf, &sp));
                         }
                     });
                     stam::verif_hooks::set_yield(None);
@@ -717,7 +728,7 @@ pub fn replay(path: &str) -> i32 {
         }
     };
     let sc = rf.scenario.clone();
-    let (solo_results, solo_files) = solo(&sc);
+    let (solo_results, solo_files, solo_post) = solo(&sc);
     let solo_results = Arc::new(solo_results);
     let solo_files = Arc::new(solo_files);
     let schedule = rf.schedule.clone();
@@ -728,7 +739,7 @@ pub fn replay(path: &str) -> i32 {
         cfg.silence_warnings = true;
         let scheduler = shuttle::scheduler::ReplayScheduler::new_from_encoded(schedule.trim());
         let runner = shuttle::Runner::new(scheduler, cfg);
-        runner.run(move || scenario_body(&sc, &solo_results, &solo_files));
+        runner.run(move || scenario_body(&sc, &solo_results, &solo_files, &solo_post));
     });
     match r {
         Ok(()) => {
